@@ -1,6 +1,6 @@
 SPECIFICATION Spec
 CONSTANTS
   Mods = {"ma", "mb", "mc"}
-  Family = "graph5"
+  Families = {"graph5"}
 INVARIANTS TypeOK RunOnce NoReentry OneObject Provenance StarRespectsUnderscore Terminates Usable Emit
 CHECK_DEADLOCK FALSE
